@@ -63,7 +63,8 @@ bool parser::open(const char *fn)
 	}
 	old = static_cast<FILE *>(_d.src.arg);
 	if (old) fclose(old);
-	_d.src.getc = (int (*)(void *)) mpt_getchar_stdio;
+	/* no character source without stream */
+	_d.src.getc = f ? (int (*)(void *)) mpt_getchar_stdio : 0;
 	_d.src.arg  = f;
 	_d.src.line = 0;
 	if (_fn) free(_fn);
